@@ -160,6 +160,17 @@ def constructors(ctx):
         if ok:
             for x in strings:
                 ctx.eq(f"from_strings({Xs})({x})", m(x), num.one if x in Xs else num.zero, sig="from_strings")
+    # reverse / rename / renumber of machines whose only state is both initial and final and touches no arc
+    for label, mk, lang in [("from_string((), w)", lambda: WFSA.from_string((), R, w), {(): wt}),
+                            ("from_string((), w) + lift(a, w)", lambda: WFSA.from_string((), R, w) + WFSA.lift("a", w, R=R), {(): wt, ("a",): wt}),
+                            ("from_strings([(), (a,b)])", lambda: WFSA.from_strings([(), ("a", "b")], R), {(): num.one, ("a", "b"): num.one})]:
+        for opname, op, rev in [("reverse", lambda m_: m_.reverse, True), ("renumber", lambda m_: m_.renumber, False),
+                                ("reverse.reverse", lambda m_: m_.reverse.reverse, False), ("rename", lambda m_: m_.rename(lambda q: ("r", q)), False)]:
+            ok, m = ctx.call(f"{label}.{opname}", lambda: op(mk()), sig=f"{opname}:construct")
+            if ok:
+                for x in strings:
+                    key = tuple(reversed(x)) if rev else x
+                    ctx.eq(f"{label}.{opname}({x})", m(x), lang.get(key, num.zero), sig=f"{opname}:isolated-state")
     base = WFSA.lift("a", w, R=R)
     ok, z = ctx.call("zero", lambda: base.zero, sig="zero:construct")
     if ok:
